@@ -69,8 +69,10 @@ def run(pid, tier):
         runs.append(("all", 2, "full", "ready"))
     tot_states = tot_edges = 0
     samples = []
+    if pid in ("C01", "C02"):
+        runs.append(("handler", 1 if quick else 3, "full", "ready"))
     for side, n, contents, phase in runs:
-        ex = chan.extract(binpath, n, contents, side, phase)
+        ex = chan.extract_handler(n) if side == "handler" else chan.extract(binpath, n, contents, side, phase)
         r = chan.impl_tlc(ex, pid, [inv], workers=8 if quick else 14)
         rep = r["report"]
         st = _edge_stats(ex)
